@@ -737,9 +737,44 @@ def diags(d, offsets=0, shape=None, format=None, dtype=None):
     return _mk(format or "csr", [(i, i, d[i]) for i in range(n)], (n, n), np._dt(dtype) or d.dtype)
 
 
+class _Dia(spmatrix):
+    """scipy.sparse.eye without a format: DIA storage, .data is the 2-d array of diagonals (here exactly one)"""
+
+    def __init__(self, n, m, dtype):
+        spmatrix.__init__(self, "dia", (n, m))
+        self.__dict__["data"] = np.array([[Q(1)] * builtins.min(n, m)], dtype=dtype)
+        self.offsets = np.array([0], dtype=np.int32)
+
+    def _triples(self):
+        d = self.__dict__["data"]
+        return [(i, i, d[0, i]) for i in range(d.shape[1])]
+
+    def copy(self):
+        c = _Dia(self._shape[0], self._shape[1], self.__dict__["data"].dtype)
+        c.__dict__["data"] = self.__dict__["data"].copy()
+        return c
+
+    def tocoo(self, copy=False):
+        return _mk_coo(self._triples(), self._shape, self.__dict__["data"].dtype)
+
+    def tocsr(self, copy=False):
+        return _mk_cs("csr", self._triples(), self._shape, self.__dict__["data"].dtype, canonical=True)
+
+    def tocsc(self, copy=False):
+        return _mk_cs("csc", self._triples(), self._shape, self.__dict__["data"].dtype, canonical=True)
+
+    def dot(self, o):
+        return self.tocsr().dot(o)
+
+    def __matmul__(self, o):
+        return self.tocsr().dot(o)
+
+
 def eye(n, m=None, dtype=np.float64, format=None):
     n = _cint(n)
-    return _mk(format or "csr", [(i, i, Q(1)) for i in range(n)], (n, m or n), np._dt(dtype))
+    if format is None:
+        return _Dia(n, m or n, np._dt(dtype))
+    return _mk(format, [(i, i, Q(1)) for i in range(n)], (n, m or n), np._dt(dtype))
 
 
 identity = eye
